@@ -145,6 +145,37 @@ def wire_closure(world, roots, rep):
     return seen, foreign
 
 
+def check_checked_registry(ctx, rep):
+    """R10.f: the generators only ever see a registry that serde-reflection has CHECKED for completeness: an enum reached only through
+    another type keeps just the variants the tracer happened to see, and `Tracer::registry()` refuses such a registry.  TypeGen must
+    obtain the registry through that call, propagate its error, and never use `registry_unchecked`."""
+    from rules.common import failure_reaches_error
+    rep.rule('R10.f', 'TypeGen obtains its registry through the checked Tracer::registry() and propagates its error', floor=1)
+    core = ctx.crate('allfeat', 'crux_core') or ctx.crate('controls', 'crux_core')
+    if core is None:
+        rep.missing('R10.f', 'crux_core facts with the typegen feature')
+        return
+    fns = [f for f in core.built if f.npath.startswith('crux_core::typegen::') or '::typegen::' in f.npath]
+    unchecked = [(f, bb) for f in fns for bb, t in f.calls() if norm(t.get('callee') or '').startswith('serde_reflection::') and 'unchecked' in last_seg(t['callee'])]
+    checked = [(f, bb, t) for f in fns for bb, t in f.calls('serde_reflection::trace::Tracer::registry')]
+    if not fns:
+        rep.missing('R10.f', 'crux_core::typegen functions (feature typegen)')
+        return
+    for f, bb in unchecked:
+        rep.bad('R10.f', '%s|unchecked' % f.kpath, '%s takes the tracer\'s registry without the completeness check: types whose variants were not all '
+                'traced are generated with variants missing, silently' % f.where(bb))
+    ok = bool(checked)
+    why = ''
+    for f, bb, t in checked:
+        good, reason = failure_reaches_error(f, t['d']['l'], allow_panic=False)
+        if not good:
+            ok = False
+            why = reason
+    if not unchecked:
+        rep.expect('R10.f', ok, 'registry|checked-and-propagated', 'Tracer::registry() is used and its failure reaches the error return',
+                   'TypeGen no longer obtains its registry through a checked Tracer::registry() whose error is propagated (%s)' % (why or 'no call found'))
+
+
 def check(ctx, rep):
     rep.rule('R10.a', 'wire types are enumerated from the Operation impls and resolve to analysed ADTs', floor=15)
     rep.rule('R10.b', 'every serde attribute on a wire type is in the neutrality table; Serialize/Deserialize are derived', floor=15)
@@ -152,6 +183,7 @@ def check(ctx, rep):
     rep.rule('R10.d', 'the bincode bridge uses one options value, with fixint encoding, for the deserializer and the serializer', floor=5)
     rep.rule('R10.e', 'register_types registers Self, Self::Output and the hand-listed types; generated Export impls register every operation', floor=6)
 
+    check_checked_registry(ctx, rep)
     crates = []
     for name in WIRE_CRATES:
         c = ctx.crate('default', name)
